@@ -1,12 +1,14 @@
 """C27 — structure factors respect crystal symmetry.
 
 Space: crystals {Si (F), Au (F), Fe (I), simple cubic, orthorhombic 2-atom (P), A-, B-, C-centred orthorhombic, non-centred 3-atom
-cell, orthogonalised hexagonal} x g_max in {3, 5} x thermal sigma in {0, 0.08, per element} x occupancy in {1, 0.5} x lattice
+cell, orthogonalised hexagonal, and five cells with a NON-symmetric cell matrix: hexagonal graphite, hcp Mg, monoclinic,
+triclinic, an orthorhombic cell rotated by 30 deg} x g_max in {3, 5} x thermal sigma in {0, 0.08, per element} x occupancy in {1, 0.5} x lattice
 translations of all atoms {none, +a, -b, a+b-c}.
 Oracle: F(-h) = conj F(h) for EVERY hkl of the grid; every reflection forbidden by the centering (reference conditions from the
 International Tables, typed in here; abTEM's get_reflection_condition and auto_detect_centering must agree with them) has
 |F| <= 1e-5 max|F| when the structure factor is built with centering='P'; get_potential_3d() has zero imaginary part; a
-lattice translation leaves every F unchanged.
+lattice translation leaves every F unchanged; F(hkl) equals the geometric sum over the textbook fractional coordinates
+(one-atom-at-origin structure factors of the same cell times sum_j exp(2 pi i h.x_j)).
 """
 import itertools
 
@@ -15,14 +17,16 @@ import numpy as np
 META = dict(
     engines=["product"],
     technique="exhaustive enumeration of crystals (all centerings) x g_max x thermal / occupancy settings x lattice translations; symmetry relations checked on every reflection",
-    text="For 10 crystals covering P, I, F, A, B and C centering, two g_max, three thermal-sigma settings, two occupancies and four lattice translations "
+    text="For 15 crystals (5 of them non-orthogonal or rotated) covering P, I, F, A, B and C centering, two g_max, three thermal-sigma settings, two occupancies and four lattice translations "
          "the real StructureFactor is built and every reflection is checked for Friedel symmetry, every centering-forbidden reflection for a "
          "vanishing structure factor, the reflection-condition helper against typed-in conditions, the reconstructed potential for a zero imaginary "
          "part and the translated crystal for identical structure factors.",
     note="Bound: g_max <= 5 1/A (a few thousand reflections), <= 8 atoms. Tolerance 1e-5 of max|F| (float32 scattering factors).",
 )
-CRYSTALS = ["Si", "Au", "Fe", "Po_sc", "ortho2", "A_ortho", "B_ortho", "C_ortho", "noncentred3", "hex_ortho"]
-CENTERING = {"Si": "F", "Au": "F", "Fe": "I", "Po_sc": "P", "ortho2": "P", "A_ortho": "A", "B_ortho": "B", "C_ortho": "C", "noncentred3": "P", "hex_ortho": "C"}
+CRYSTALS = ["Si", "Au", "Fe", "Po_sc", "ortho2", "A_ortho", "B_ortho", "C_ortho", "noncentred3", "hex_ortho",
+            "graphite_hex", "Mg_hcp", "monoclinic2", "triclinic3", "ortho2_rotated"]
+CENTERING = {"Si": "F", "Au": "F", "Fe": "I", "Po_sc": "P", "ortho2": "P", "A_ortho": "A", "B_ortho": "B", "C_ortho": "C", "noncentred3": "P", "hex_ortho": "C",
+             "graphite_hex": "P", "Mg_hcp": "P", "monoclinic2": "P", "triclinic3": "P", "ortho2_rotated": "P"}
 SIGMAS = [0.0, 0.08, "element"]
 
 
@@ -55,10 +59,24 @@ def crystal(name):
         return centred((0.5, 0.5, 0))
     if name == "noncentred3":
         return ase.Atoms("SiCO", scaled_positions=[(0.1, 0.2, 0.05), (0.45, 0.6, 0.3), (0.8, 0.15, 0.7)], cell=(3.3, 3.9, 4.4), pbc=True)
+    # cells whose 3x3 matrix is NOT symmetric (fractional coordinates = positions @ inv(cell), not its transpose)
+    if name == "Mg_hcp":
+        return bulk("Mg")
+    if name == "monoclinic2":
+        return ase.Atoms("SiC", scaled_positions=[(0.1, 0.2, 0.3), (0.6, 0.45, 0.8)], cell=[[3.2, 0, 0], [0, 4.1, 0], [-1.1, 0, 5.0]], pbc=True)
+    if name == "triclinic3":
+        return ase.Atoms("SiCO", scaled_positions=[(0.1, 0.2, 0.05), (0.45, 0.6, 0.3), (0.8, 0.15, 0.7)],
+                         cell=[[3.3, 0, 0], [0.7, 3.9, 0], [0.4, -0.6, 4.4]], pbc=True)
+    if name == "ortho2_rotated":
+        r = ase.Atoms("SiC", scaled_positions=[(0, 0, 0), (0.31, 0.5, 0.27)], cell=cell, pbc=True)
+        r.rotate(30, "z", rotate_cell=True)
+        return r
     import abtem
 
     a = 2.46
     g = ase.Atoms("C2", scaled_positions=[(0, 0, 0.5), (1 / 3, 2 / 3, 0.5)], cell=[[a, 0, 0], [-a / 2, a * np.sqrt(3) / 2, 0], [0, 0, 3.35]], pbc=True)
+    if name == "graphite_hex":
+        return g
     return abtem.orthogonalize_cell(g)
 
 
@@ -148,6 +166,27 @@ def run_case(c):
             bad("potential-not-real", "get_potential_3d has imaginary part %.3g of max %.3g" % (float(np.abs(V.imag).max()), float(np.abs(V.real).max())))
     except Exception as e:  # noqa: BLE001
         bad("potential-raises", "get_potential_3d raised %s: %s" % (type(e).__name__, str(e)[:100]))
+    # geometric structure factor: F(hkl) = sum_species F_one-atom-at-origin(hkl) * sum_j exp(-+2 pi i h.x_j) with x_j the textbook
+    # fractional coordinates positions @ inv(cell); either sign convention is accepted, but one of them must fit every reflection
+    try:
+        syms = atoms.get_chemical_symbols()
+        frac = np.asarray(atoms.positions) @ np.linalg.inv(np.asarray(atoms.cell))
+        tot = {1: 0.0, -1: 0.0}
+        for sp in sorted(set(syms)):
+            one = atoms[[syms.index(sp)]].copy()
+            one.positions[:] = 0.0
+            hkl1, F1, _ = build(one)
+            if not np.array_equal(hkl1, hkl):
+                raise RuntimeError("hkl grid depends on the basis")
+            x = frac[[s_ == sp for s_ in syms]]
+            for sgn in (1, -1):
+                tot[sgn] = tot[sgn] + F1 * np.exp(sgn * 2j * np.pi * (hkl @ x.T)).sum(axis=1)
+        d = min(float(np.abs(tot[sgn] - F).max()) for sgn in (1, -1))
+        worst = max(worst, d / (1e-5 * fmax))
+        if d > 1e-5 * fmax:
+            bad("geometric-structure-factor", "F(hkl) differs from sum_j f_j(g) exp(2 pi i h.x_j) over the fractional coordinates by %.3g (max|F| %.3g)" % (d, fmax))
+    except Exception as e:  # noqa: BLE001
+        bad("geometric-structure-factor-raises", "%s: %s" % (type(e).__name__, str(e)[:100]))
     # lattice translations
     cell = np.asarray(atoms.cell)
     for name, t in (("+a", cell[0]), ("-b", -cell[1]), ("a+b-c", cell[0] + cell[1] - cell[2])):
